@@ -18,7 +18,7 @@ Definition drop (n : N) (s : bytes) : bytes := skipn (N.to_nat n) s.
 Definition take (n : N) (s : bytes) : bytes := firstn (N.to_nat n) s.
 
 Record token := mkTok {
-  t_typ : N; t_start : N; t_end : N; t_line : N; t_col : N; t_lin : N; t_ctx : N;
+  t_typ : N; t_start : N; t_end : N; t_len : N; t_line : N; t_col : N; t_lin : N; t_ctx : N;
   t_tag : bytes; t_att : bytes;
   t_cdev : bool; t_ldev : bool (* ghost *) }.
 
@@ -120,7 +120,7 @@ Definition emit_at (line col : N) (cd ld : bool) (typ length : N) (l : lexer) : 
     if length =? 0 then
       if typ =? gen_tokenSemicolon then (start - 1, start - 1, l_tot l) else (start, start, l_tot l + 1)
     else (start, start + length - 1, l_tot l + 1) in
-  let tok := mkTok typ start endp line col (l_line l) ctx (l_tag l) (l_att l) cd ld in
+  let tok := mkTok typ start endp length line col (l_line l) ctx (l_tag l) (l_att l) cd ld in
   let l1 := set_out (tok :: l_out l) (set_tot tot l) in
   let l2 :=
     if typ =? gen_tokenRaw then
